@@ -288,9 +288,21 @@ func (*c07) Oracle(ci, oi any) []hx.Violation {
 	return vs
 }
 
+// String literals are by far the most expensive part of a case file for coqc (every character is
+// a constructor application): the recurring ones are printed as the identifiers Run/RunC07.v
+// defines for them (Definition sL := "l:app.kubernetes.io/managed-by". ...).
+var c07Abbrev = strings.NewReplacer(
+	`"l:app.kubernetes.io/managed-by"`, "sL", `"a:meta.helm.sh/release-name"`, "sAN", `"a:meta.helm.sh/release-namespace"`, "sAS",
+	`"app.kubernetes.io/managed-by"`, "sl", `"meta.helm.sh/release-name"`, "san", `"meta.helm.sh/release-namespace"`, "sas",
+	`"l:app.kubernetes.io/name"`, "sLN", `"a:example.com/note"`, "sAT", `"app.kubernetes.io/name"`, "sln", `"example.com/note"`, "sat",
+	`"ConfigMap/bystander"`, "sB1", `"ConfigMap/bystander-other"`, "sB2", `"Secret/bystander-labelled"`, "sB3",
+	`"ConfigMap/base"`, "sCB", `"ConfigMap"`, "sCM", `"Secret"`, "sSE", `"ServiceAccount"`, "sSA",
+	`"default"`, "sD", `"elsewhere"`, "sE", `"Helm"`, "sH", `"keep me"`, "sKM", `"create"`, "sCr", `"update"`, "sUp", `"delete"`, "sDe",
+	`"hookwatch"`, "sHW", `"bystander"`, "sby", `"bystander-other"`, "sbo", `"bystander-labelled"`, "sbl")
+
 func (*c07) CoqCase(ci, oi any) string {
 	o := oi.(c07Obs)
-	return fmt.Sprintf("mkC7 (%s)\n  %s", eng.CoqCase(ci.(c07Case).H, o.Obs), c07CoqStamps(o.Stamps))
+	return c07Abbrev.Replace(fmt.Sprintf("mkC7 (%s)\n  %s", eng.CoqCase(ci.(c07Case).H, o.Obs), c07CoqStamps(o.Stamps)))
 }
 
 func (*c07) Class(ci, oi any) string {
